@@ -4,6 +4,7 @@ import (
 	"fmt"
 	"go/ast"
 	"go/constant"
+	"go/token"
 	"regexp"
 	"strings"
 )
@@ -233,6 +234,129 @@ func init() {
 			}
 		}
 		fact("client.go NewClientConnection: the deadline is removed when the handshake succeeded", "c16DeadlineCleared", cleared)
+
+		// ---- client.go: WHERE a deadline is set / cleared relative to the phases of the handshake.
+		// Every call of SetDeadline / SetReadDeadline / SetWriteDeadline in client.go, with the function it
+		// is in, its argument and its placement: "deferred <conditions>" when inside a deferred closure (it
+		// runs when the function returns), otherwise "after <phase calls of that function that precede it>".
+		// And the call chain of the phases themselves: which function runs handshake / upgrade / startTls /
+		// the TLS handshake.
+		phaseCalls := []string{"connection.handshake", "connection.upgrade", "cc.startTls", "tlsConn.Handshake", "request.Write", "response.Read"}
+		type dsite struct{ fn, method, arg, place string }
+		var dsites []dsite
+		type link struct{ caller, callee string }
+		var chain []link
+		for _, d := range cfile.Decls {
+			fd, ok := d.(*ast.FuncDecl)
+			if !ok || fd.Body == nil {
+				continue
+			}
+			fname := fd.Name.Name
+			if fd.Recv != nil && len(fd.Recv.List) > 0 {
+				t := fd.Recv.List[0].Type
+				if st, ok := t.(*ast.StarExpr); ok {
+					t = st.X
+				}
+				fname = exprString(t) + "." + fname
+			}
+			type pc struct {
+				name string
+				pos  token.Pos
+			}
+			var phases []pc
+			ast.Inspect(fd.Body, func(n ast.Node) bool {
+				if c, ok := n.(*ast.CallExpr); ok {
+					f := flat(c.Fun)
+					for _, p := range phaseCalls {
+						if f == p {
+							phases = append(phases, pc{p, c.Pos()})
+							if p != "request.Write" && p != "response.Read" {
+								chain = append(chain, link{fname, p})
+							}
+						}
+					}
+				}
+				return true
+			})
+			var walk func(n ast.Node, deferred bool, guards []string)
+			walk = func(n ast.Node, deferred bool, guards []string) {
+				if n == nil {
+					return
+				}
+				switch x := n.(type) {
+				case *ast.DeferStmt:
+					walk(x.Call, true, guards)
+					return
+				case *ast.IfStmt:
+					if x.Init != nil {
+						walk(x.Init, deferred, guards)
+					}
+					c := flat(x.Cond)
+					walk(x.Cond, deferred, guards)
+					walk(x.Body, deferred, append(append([]string{}, guards...), c))
+					if x.Else != nil {
+						walk(x.Else, deferred, append(append([]string{}, guards...), "!("+c+")"))
+					}
+					return
+				case *ast.CallExpr:
+					if sel, ok := x.Fun.(*ast.SelectorExpr); ok && len(x.Args) == 1 &&
+						(sel.Sel.Name == "SetDeadline" || sel.Sel.Name == "SetReadDeadline" || sel.Sel.Name == "SetWriteDeadline") {
+						place := ""
+						if deferred {
+							place = "deferred " + strings.Join(guards, " && ")
+						} else {
+							var before []string
+							for _, p := range phases {
+								if p.pos < x.Pos() {
+									before = append(before, p.name)
+								}
+							}
+							place = "after " + strings.Join(before, ",")
+							if len(guards) > 0 {
+								place += " if " + strings.Join(guards, " && ")
+							}
+						}
+						dsites = append(dsites, dsite{fname, sel.Sel.Name, flat(x.Args[0]), strings.TrimSpace(place)})
+					}
+				}
+				// generic descent over the children
+				first := true
+				ast.Inspect(n, func(c ast.Node) bool {
+					if first {
+						first = false
+						return true
+					}
+					if c != nil {
+						walk(c, deferred, guards)
+					}
+					return false
+				})
+			}
+			walk(fd.Body, false, nil)
+		}
+		fmt.Fprintf(b, "/-- client.go: every call that sets or clears a deadline: (function, method, argument, placement — `deferred <conditions>` = in a deferred closure, runs when the function returns; `after <phase calls preceding it in that function>`) -/\ndef c16DeadlineSites : List (String × String × String × String) := [\n")
+		for i, d := range dsites {
+			sep := ","
+			if i == len(dsites)-1 {
+				sep = ""
+			}
+			fmt.Fprintf(b, "  (%q, %q, %q, %q)%s\n", d.fn, d.method, d.arg, d.place, sep)
+		}
+		fmt.Fprintf(b, "]\n\n")
+		fmt.Fprintf(b, "/-- client.go: which function runs which phase of the handshake (caller, call), in source order -/\ndef c16HandshakeChain : List (String × String) := [\n")
+		for i, l := range chain {
+			sep := ","
+			if i == len(chain)-1 {
+				sep = ""
+			}
+			fmt.Fprintf(b, "  (%q, %q)%s\n", l.caller, l.callee, sep)
+		}
+		fmt.Fprintf(b, "]\n\n")
+
+		// ---- http.go: the websocket dial (TCP connect + TLS + HTTP upgrade) runs under a timeout
+		hk := flat(findFunc(parse("internal/client/upstream/http.go"), "Http", "Connect"))
+		fact("http.go: the websocket dial (connect, TLS handshake, HTTP upgrade) runs under websocket.Dialer.HandshakeTimeout",
+			"c16WsDialBounded", strings.Contains(hk, "&websocket.Dialer{") && strings.Contains(hk, "HandshakeTimeout:") && strings.Contains(hk, "dialer.Dial("))
 		fact("client.go NewClientConnection: a connection whose handshake failed is closed", "c16ClosesFailed", closesFailed)
 	})
 }
